@@ -218,6 +218,10 @@ def main():
     if thm_broken:
         budget_scale = 10      # the search of DESIGN.md §5
     cases = fam.gen_cases(rng, tier, budget_scale)
+    _ids = [c['line'].split(' ', 1)[0] for c in cases]
+    if len(set(_ids)) != len(_ids):
+        dup = sorted({i for i in _ids if _ids.count(i) > 1})[:5]
+        raise SystemExit(f'internal error: duplicate case ids in family {prop}: {dup}')
     corpus = fam.corpus_cases() if hasattr(fam, 'corpus_cases') else []
     all_cases = corpus + cases
     lines = hblib.add_float_tables([c['line'] for c in all_cases])
